@@ -27,7 +27,16 @@ func NewFunction(scanner parser.Scanner, arg Pattern, body Expr) Expr {
 // function, returns expr. Otherwise, returns expr wrapper in a function with
 // arg '.'.
 func ExprAsFunction(expr Expr) *Function {
-	if fn, ok := expr.(*Function); ok {
+	// Parentheses do not change what an expression is: `x -> (\y y)` is `x -> \y y`.
+	inner := expr
+	for {
+		paren, ok := inner.(ExprExpr)
+		if !ok {
+			break
+		}
+		inner = paren.Expr
+	}
+	if fn, ok := inner.(*Function); ok {
 		return fn
 	}
 	return NewFunction(expr.Source(), IdentPattern("."), expr).(*Function)
